@@ -116,8 +116,14 @@ B48 = sorted(set([h | l for h in range(0x80, 0xF0, 0x10) for l in (0, 0xF)] +
 B12 = [0x00, 0x7F, 0x80, 0x90, 0xC5, 0xE3, 0xF0, 0xF1, 0xF2, 0xF6, 0xF7, 0xF8]
 
 
+_N = [0]
+
+
 def _fast(rec, seq, conts):
     """Inlined oracle for plain byte lists; falls back to check_seq on disagreement."""
+    _N[0] += 1
+    if not rec.keep(_N[0], 13):
+        return
     well = R.ref_is_single_message(seq)
     for c in conts:
         try:
